@@ -144,4 +144,97 @@ theorem gen_blindOpen (f : Bytes) :
   | hang => exact rest checked hcNC
   | fault => exact rest checked hcNC
 
+/-! ### `ContainerPack::new` -/
+
+/-- one step of the model's loop over the pack locators -/
+def cpStep (g : Bytes) (origin lp : Nat) (acc : List PackAt) (k : Nat) : Outcome (List PackAt) :=
+  (readBlock g (lp + k * 36) 32).bind fun lb => (PackLocator.decode lb).bind fun l =>
+    if l.pos + l.size ≤ g.length then .ok (acc ++ [⟨l.uuid, origin + l.pos, l.size⟩]) else .err .format
+
+def toAt (x : Bytes × (Nat × Nat)) : PackAt := ⟨x.1, x.2.1, x.2.2⟩
+
+theorem cp_loop (g : Bytes) (origin lp : Nat) (ph : Outcome PackHeader) (chd : Outcome ContainerHeader) (n : Nat) :
+    ∀ (k : Nat) (uu : List Bytes) (acc : List (Bytes × (Nat × Nat))),
+      (Generated.containerPackNew_loop 36 ph chd
+          (fun off => (readBlock g off 32).bind fun lb => PackLocator.decode lb)
+          (fun pos sz => if pos + sz ≤ g.length then Outcome.ok (origin + pos, sz) else .err .format)
+          (lp + k * 36) uu acc n).map' (fun r => r.2.2.map toAt) =
+        (List.range' k n).foldlM (cpStep g origin lp) (acc.map toAt) := by
+  induction n with
+  | zero => intro k uu acc; simp [Generated.containerPackNew_loop, Outcome.map', pure]
+  | succ n ih =>
+    intro k uu acc
+    unfold Generated.containerPackNew_loop
+    simp only [List.range'_succ, List.foldlM_cons, bind, cpStep, Outcome.bind_assoc'']
+    cases hr : readBlock g (lp + k * 36) 32 with
+    | ok lb =>
+      simp only [Outcome.bind_ok'']
+      cases hd : PackLocator.decode lb with
+      | ok l =>
+        simp only [Outcome.bind_ok'']
+        by_cases hb : l.pos + l.size ≤ g.length
+        · simp only [hb, if_true, Outcome.bind_ok'']
+          have := ih (k + 1) (uu ++ [l.uuid]) (acc ++ [(l.uuid, origin + l.pos, l.size)])
+          rw [show lp + (k + 1) * 36 = lp + k * 36 + 36 by omega] at this
+          rw [this]
+          simp [toAt, cpStep]
+        · simp [hb, Outcome.bind, Outcome.map']
+      | _ => rfl
+    | _ => rfl
+
+/-- **Reading a container pack follows the source**: `containerPackOpen` of the container model is
+    `ContainerPack::new` (`reader/container_pack.rs`) as translated on every run — header of kind "container",
+    container header, then `pack_count` locators read one after the other from `pack_locators_pos` in steps of
+    the locator block size, each pack region cut (bounds-checked) out of the container — applied to the model's
+    block reads; the translated loop recurses on the count, so it terminates. -/
+theorem gen_containerPackOpen (f : Bytes) (origin size : Nat) :
+    containerPackOpen f origin size =
+      (Generated.containerPackNew 36
+          (do let hd ← readBlock (slice f origin size) 0 60; PackHeader.decode hd)
+          (do let cb ← readBlock (slice f origin size) 64 60; ContainerHeader.decode cb)
+          (fun off => (readBlock (slice f origin size) off 32).bind fun lb => PackLocator.decode lb)
+          (fun pos sz => if pos + sz ≤ (slice f origin size).length then Outcome.ok (origin + pos, sz) else .err .format)).map'
+        (fun r => r.2.map toAt) := by
+  unfold containerPackOpen Generated.containerPackNew openHeader
+  simp only [bind, Outcome.bind_assoc'']
+  cases h1 : readBlock (slice f origin size) 0 60 with
+  | ok hd =>
+    simp only [Outcome.bind_ok'']
+    cases h2 : PackHeader.decode hd with
+    | ok h =>
+      simp only [Outcome.bind_ok'']
+      by_cases hk : h.kind = PackKind.container
+      · simp only [hk, if_true, ne_eq, not_true_eq_false, if_false, Outcome.bind_ok'']
+        cases h3 : readBlock (slice f origin size) 64 60 with
+        | ok cb =>
+          simp only [Outcome.bind_ok'']
+          cases h4 : ContainerHeader.decode cb with
+          | ok ch =>
+            simp only [Outcome.bind_ok'']
+            have := cp_loop (slice f origin size) origin ch.locatorsPos
+              ((readBlock (slice f origin size) 0 60).bind fun hd => PackHeader.decode hd)
+              ((readBlock (slice f origin size) 64 60).bind fun cb => ContainerHeader.decode cb) ch.packCount 0 [] []
+            simp only [Nat.zero_mul, Nat.add_zero, List.map_nil] at this
+            rw [h1, h3] at this
+            simp only [Outcome.bind_ok'', h2, h4] at this
+            rw [List.range_eq_range']
+            have hstep : (fun (acc : List PackAt) (k : Nat) =>
+                (readBlock (slice f origin size) (ch.locatorsPos + k * 36) 32).bind fun lb =>
+                  (PackLocator.decode lb).bind fun l =>
+                    if l.pos + l.size ≤ List.length (slice f origin size) then
+                      pure (acc ++ [{ uuid := l.uuid, origin := origin + l.pos, size := l.size }])
+                    else Outcome.err ErrKind.format) = cpStep (slice f origin size) origin ch.locatorsPos := by
+              funext acc k; rfl
+            rw [hstep, ← this]
+            cases Generated.containerPackNew_loop 36 (Outcome.ok h) (Outcome.ok ch)
+              (fun off => (readBlock (slice f origin size) off 32).bind fun lb => PackLocator.decode lb)
+              (fun pos sz => if pos + sz ≤ List.length (slice f origin size) then Outcome.ok (origin + pos, sz) else Outcome.err ErrKind.format)
+              ch.locatorsPos [] [] ch.packCount <;> rfl
+          | _ => rfl
+        | _ => rfl
+      · simp [hk]
+        rfl
+    | _ => rfl
+  | _ => rfl
+
 end Jubako
